@@ -40,11 +40,33 @@ Theorem c36_sent : forall l,
 Proof. exact sent_is_prefix_of_reports. Qed.
 Print Assumptions c36_sent.
 
-Theorem c36_all_sent : forall l,
-  let s' := fst (run init (l ++ [Drain])) in
-  result s' <> 1%nat -> sent s' = snd (run init (l ++ [Drain])).
-Proof. exact all_reported_after_drain. Qed.
-Print Assumptions c36_all_sent.
+(* QUIESCENCE (no lost wake-up): whenever the send loop is parked on an open wait channel and
+   the call is running, nothing is left queued and everything reported has been sent - for every
+   callback history and every interleaving with the send loop, including callbacks arriving
+   between two Drain regions (= while strm.Send is running).  This holds because Drain takes the
+   new wait channel in the same lock region that snapshots the queue (Rpc/Access.v step). *)
+Theorem c36_quiescent_all_sent : forall l,
+  let s' := fst (run init l) in
+  result s' = 0%nat -> woken s' = false ->
+  queue s' = [] /\ disposed s' = false /\ sent s' = snd (run init l).
+Proof. exact quiescent_all_sent. Qed.
+Print Assumptions c36_quiescent_all_sent.
+
+(* ... so at quiescence the availability / idle state the remote side was told is the actual one *)
+Theorem c36_quiescent_state : forall l,
+  wf_hist init l ->
+  let s' := fst (run init l) in
+  result s' = 0%nat -> woken s' = false ->
+  last_er false (sent s') = negb (Nat.eqb (length (vals s')) 0) /\
+  last_idle false (sent s') = idle s'.
+Proof. exact quiescent_reported_state. Qed.
+Print Assumptions c36_quiescent_state.
+
+(* ... and every send-loop iteration ends parked or returned *)
+Theorem c36_drain_quiesces : forall s,
+  woken (fst (step s Drain)) = false \/ result (fst (step s Drain)) <> 0%nat.
+Proof. exact drain_quiesces. Qed.
+Print Assumptions c36_drain_quiesces.
 
 (* component ids of valid requests (non-empty service id) decode back to the same request;
    base58 as an encoding that decodes what it encoded, for non-empty data *)
@@ -65,6 +87,9 @@ Example c36_nonvacuous :
   snd (run init [Add 1 true; Add 2 true; IdleCb true false; Remove 1; Remove 2; Add 3 true])
     = [RExists; RIdle true; RRemoved; RExists] /\
   snd (run init [Add 1 true; Add 1 true]) = [RExists; RExists] /\
+  (* the last provider vanishes while Exists is being written (between two Drain regions) *)
+  (let s := fst (run init [Add 1 true; Drain; Remove 1; Drain]) in
+   woken s = false /\ sent s = [RExists; RRemoved]) /\
   (forall x : bytes, x <> [] -> (fun y => Some y) ((fun y : bytes => y) x) = Some x).
 Proof.
   split; [apply wf_histb_spec; reflexivity|]. repeat split; reflexivity.
